@@ -1,5 +1,5 @@
 """Property -> rules registry.  Rules are added here as they are built; a property without rules is not claimed."""
-from .rules import determinism, panics, wiring, traversal, annot, shape, hygiene, enums, shrinking, fresh, sharing, codegen, abi, pmoves
+from .rules import determinism, panics, wiring, traversal, annot, shape, hygiene, enums, shrinking, fresh, sharing, codegen, abi, pmoves, labels
 
 
 def _thorough_only(rule):
@@ -12,6 +12,19 @@ def _thorough_only(rule):
 
 
 PROPS = {
+    "C14": {
+        "rules": [labels.rule_stride, labels.rule_jtorder, labels.rule_label, codegen.rule_isel("x86_64"), codegen.rule_isel("aarch64"),
+                  codegen.rule_isel("rv64"), hygiene.rule_seed],
+        "text": "Well-formedness of the emitted assembly decided structurally: (R-LABEL) every label-defining site has one of five "
+                "shapes whose languages are pairwise disjoint given the grammar's identifier classes, counters make generated labels "
+                "unique, generated definition names consult the set of used names; (R-STRIDE) jump_length(n) = n * size of the single "
+                "fixed-size jump that jump_label_fixed emits, one table entry per clause; (R-JTORDER) clauses are normalised to "
+                "declaration order, which the tag arithmetic assumes; (R-IMM, via the symbolic machine) every immediate, shift and "
+                "memory offset of the arithmetic/compare/move/literal templates fits the instruction form it is printed in, for "
+                "literals of every magnitude in every placement.",
+        "assumptions": ["validity of every instruction form as such (beyond immediates/offsets and memory-destination imul) is not decided",
+                        "immediates of the memory-management sequences are compile-time constants (field offsets <= 64, stack offsets < 2048)"],
+    },
     "C11": {
         "rules": [pmoves.rule_cycle, pmoves.rule_subst_order, codegen.rule_isel_mov_only],
         "text": "Backend-specific pieces of the simultaneous-assignment scheme, decided per backend on folded emission lists run on the "
